@@ -80,28 +80,29 @@ def install(E, inline_types=(), target=None):
 
     # ------------------------------------------------ serializer
     def ser_write(E_, c, args):
-        meth = c.split("::")[-1]
+        meth = re.sub(r"::<.*$", "", c[c.index(">::write_") + 3:]) if ">::write_" in c else c.split("::")[-1]
         s = deref(E_, args[0])
         if not isinstance(s, VSer):
             return NotImplemented
         if meth in ("write_map", "write_array"):
             s.tokens.append(("map" if meth == "write_map" else "array", len_of(E_, args[1])))
         elif meth == "write_unsigned_integer":
-            s.tokens.append(("uint", deref(E_, args[1]).t))
+            s.tokens.append(("uint", z3.simplify(deref(E_, args[1]).t)))
         elif meth in ("write_negative_integer", "write_negative_integer_sz"):
             s.tokens.append(("nint", deref(E_, args[1]).t))
         elif meth in ("write_bytes", "write_raw_bytes", "write_text"):
             s.tokens.append(({"write_bytes": "bytes", "write_text": "text", "write_raw_bytes": "raw"}[meth], E_.as_u(args[1])))
         elif meth == "write_tag":
-            t = E_.concretize(deref(E_, args[1]).t)
-            s.tokens.append(("tag", t if t is not None else deref(E_, args[1]).t))
+            tv = deref(E_, args[1])
+            t = E_.concretize(tv.t)
+            s.tokens.append(("tag", t if t is not None else tv.t))
         elif meth == "write_special":
             sp = deref(E_, args[1])
             s.tokens.append(("special", sp.variant, sp.fields[0].t if sp.fields else None))
         else:
             raise Unsupported("serializer method " + meth)
         return ok(args[0])
-    E.extra_intrinsics[r"cbor_event::se::Serializer::<.*>::write_\w+$"] = ser_write
+    E.extra_intrinsics[r"cbor_event::se::Serializer::<.*?>::write_\w+(::<.*>)?$"] = ser_write
 
     def nested_serialize(E_, c, args):
         m = re.match(r"^<(.*) as (?:cbor_event::)?(?:se::)?Serialize>::serialize", c)
@@ -112,21 +113,74 @@ def install(E, inline_types=(), target=None):
             return NotImplemented
         ty = last_seg(m.group(1))
         val = deref(E_, args[0])
-        if ty in inline and not (isinstance(val, VLazy) and ty not in ("BigNum",)):
+        if isinstance(val, VInt):
+            s.tokens.append(("uint", val.t) if not _eng.INT_TYPES[val.ty][0] else ("int", val.t))
+            return ok(args[1])
+        if isinstance(val, VBool):
+            s.tokens.append(("special", "Bool", val.t))
+            return ok(args[1])
+        if ty == target and not s.tokens and not getattr(s, "entered", False):
+            s.entered = True            # the value under test: execute its serializer (nested values of the same type stay opaque)
             return NotImplemented
-        if ty in inline and isinstance(val, VLazy) and ty == "BigNum":
+        if ty in inline and ty != target and not (isinstance(val, VLazy) and ty not in ("BigNum",)):
+            return NotImplemented
+        if ty in inline and ty != target and isinstance(val, VLazy) and ty == "BigNum":
             return NotImplemented
         s.tokens.append(("item", E_.as_u(val), ty))
         return ok(args[1])
     E.extra_intrinsics[r" as (cbor_event::)?(se::)?Serialize>::serialize"] = nested_serialize
 
+    # a value serialized to its own byte string and embedded (tag 24 forms): opaque bytes that remember the value
+    def inner_to_bytes(E_, c, args):
+        v = deref(E_, args[0])
+        u = z3.Function("to_bytes_of", E_.U, E_.U)(E_.as_u(v))
+        E_.__dict__.setdefault("embedded", {})[str(u)] = (v, u)
+        return VOpaque("bytes", [], u)
+    E.extra_intrinsics[r"(^|::)(utils::)?to_bytes(::<.*>)?$"] = lambda E_, c, a: inner_to_bytes(E_, c, a) if isinstance(deref(E_, a[0]), (VLazy, VOpaque, VStruct, VEnum)) else NotImplemented
+    def inner_from_bytes(E_, c, args):
+        b = deref(E_, args[0])
+        m_ = re.search(r"from_bytes::<(.*)>$", c)
+        ty_ = last_seg(m_.group(1)) if m_ else "?"
+        u = E_.as_u(b)
+        lz = VLazy("embedded_%d" % len(E_.lazy_ident), ty_)
+        # from_bytes(to_bytes(v)) == v : identity of the embedded value
+        E_.lazy_ident[lz.path] = z3.Function("from_bytes_of", E_.U, E_.U)(u)
+        E_.pc.append(z3.ForAll([z3.Const("x", E_.U)], z3.Function("from_bytes_of", E_.U, E_.U)(z3.Function("to_bytes_of", E_.U, E_.U)(z3.Const("x", E_.U))) == z3.Const("x", E_.U)))
+        return ok(lz)
+    E.extra_intrinsics[r"(^|::)(utils::)?from_bytes::<.*>$"] = inner_from_bytes
+
     # ------------------------------------------------ deserializer
     def peek(d):
         return d.tokens[d.pos] if d.pos < len(d.tokens) else None
 
+    def first_kind(ty):
+        """CBOR major type an opaque value of Rust type ty starts with: found by running its own serializer once"""
+        cache = E.P.__dict__.setdefault("first_tok_cache", {})
+        if ty in cache:
+            return cache[ty]
+        cache[ty] = None
+        try:
+            S = _eng.Engine(E.P, max_loop=4)
+            install(S, target=ty)
+            kinds = set()
+            for o in S.explore("<%s as cbor_event::se::Serialize>::serialize" % ty, lambda: [VRef(Cell(VLazy("probe", ty))), VRef(Cell(VSer()))], max_paths=40):
+                if o.kind == "return" and o.value.variant == "Ok":
+                    t = deref(S, o.args[1]).tokens
+                    if t:
+                        kinds.add(t[0][0] if t[0][0] != "item" else first_kind(t[0][2]))
+            if len(kinds) == 1:
+                cache[ty] = kinds.pop()
+        except Exception:
+            pass
+        return cache[ty]
+
     def cbor_type_of(tok):
         k = tok[0]
-        return {"uint": "UnsignedInteger", "nint": "NegativeInteger", "bytes": "Bytes", "text": "Text", "array": "Array", "map": "Map",
+        if k == "item":
+            fk = first_kind(tok[2]) if len(tok) > 2 else None
+            if fk in ("uint", "int", "nint", "bytes", "text", "array", "map", "tag", "special"):
+                k = fk
+        return {"uint": "UnsignedInteger", "int": "UnsignedInteger", "nint": "NegativeInteger", "bytes": "Bytes", "text": "Text", "array": "Array", "map": "Map",
                 "tag": "Tag", "special": "Special", "item": "Array", "raw": "Array"}[k]
 
     def de_call(E_, c, args):
@@ -179,11 +233,29 @@ def install(E, inline_types=(), target=None):
         if not isinstance(d, VDe):
             return NotImplemented
         tok = peek(d)
+        mn = re.match(r"^<(.*) as (?:[\w:]*::)?DeserializeNullable>::deserialize_nullable", c)
+        if mn:
+            tyn = last_seg(mn.group(1))
+            if tok is not None and tok[0] == "special" and tok[1] == "Null":
+                d.pos += 1
+                return ok(VEnum("Option", "None", []))
+            if tok is not None and tok[0] == "item":
+                d.pos += 1
+                lz = VLazy("decoded_%d" % d.pos, tyn)
+                E_.lazy_ident[lz.path] = tok[1]
+                return ok(VEnum("Option", "Some", [lz]))
+            return NotImplemented
         m = re.match(r"^<(.*) as (?:[\w:]*::)?Deserialize>::deserialize", c) or re.match(r"^(.*)::deserialize(?:_with_version)?(?:::<.*>)?$", c)
         ty = last_seg(m.group(1)) if m else "?"
         mi = re.search(r"<impl ([^<>]+)>::deserialize", c)
         if mi:
             ty = last_seg(mi.group(1))
+        if ty in _eng.INT_TYPES and tok is not None and tok[0] in ("uint", "int"):
+            d.pos += 1
+            return ok(VInt(tok[1], ty))
+        if ty == target and d.pos == 0 and not getattr(d, "entered", False):
+            d.entered = True
+            return NotImplemented
         if tok is not None and tok[0] == "item":
             d.pos += 1
             lz = VLazy("decoded_%d" % d.pos, ty)
@@ -202,7 +274,7 @@ def item_end(tokens, pos):
         return None
     t = tokens[pos]
     k = t[0]
-    if k in ("uint", "nint", "bytes", "text", "item", "raw"):
+    if k in ("uint", "nint", "int", "bytes", "text", "item", "raw"):
         return pos + 1
     if k == "special":
         return None if t[1] == "Break" else pos + 1
